@@ -69,16 +69,70 @@ def _splice_closure(bld, closure_raw, env_operand, args, dest, ret, line):
         if a is not None and off + 2 + i < len(raw['locals']):
             rv = a if isinstance(a.get('k'), str) else {'k': 'use', 'op': a}      # an rvalue (`&payload`) or an operand
             pre.append(bld.stmt([off + 2 + i, []], rv, line))
+    # captured variables: where the closure value is built in this body, a read of capture i inside the closure is a read of the operand
+    # that was captured (field-sensitive: `path` and `tmp` captured by one closure stay two things)
+    caps = {}
+    if env_place is not None and not env_place[1]:
+        defs = [st for blk_ in raw['blocks'] for st in blk_['stmts'] if st['p'] == [env_place[0], []]]
+        if len(defs) == 1 and defs[0]['rv'].get('k') == 'agg' and defs[0]['rv'].get('ak') == 'closure':
+            for i, o in enumerate(defs[0]['rv']['ops']):
+                pl = o.get('m') or o.get('c')
+                if pl is not None:
+                    u = bld.local(raw['locals'][pl[0]]['ty'] if not pl[1] else '?')
+                    pre.append(bld.stmt([u, []], {'k': 'use', 'op': {'c': pl}}, line))
+                    caps[i] = u
+
+    def subst_place(p):
+        if p[0] != off + 1 or not caps:
+            return p
+        proj = list(p[1])
+        j = 0
+        if proj and proj[0] == '*':
+            j = 1
+        if len(proj) > j and isinstance(proj[j], list) and proj[j][0] == 'F' and proj[j][1] in caps:
+            return [caps[proj[j][1]], proj[j + 1:]]
+        return p
+
+    def subst_op(o):
+        if isinstance(o, dict):
+            if 'c' in o:
+                return dict(o, c=subst_place(o['c']))
+            if 'm' in o:
+                return dict(o, m=subst_place(o['m']))
+        return o
+
+    def subst_stmt(st):
+        st = dict(st)
+        st['p'] = subst_place(st['p'])
+        rv = dict(st['rv'])
+        for kk in ('op', 'a', 'b'):
+            if isinstance(rv.get(kk), dict):
+                rv[kk] = subst_op(rv[kk])
+        if rv.get('ops'):
+            rv['ops'] = [subst_op(o) for o in rv['ops']]
+        if isinstance(rv.get('p'), list):
+            rv['p'] = subst_place(rv['p'])
+        st['rv'] = rv
+        return st
+
+    def subst_term(t_):
+        if t_['k'] == 'call':
+            t_ = dict(t_, args=[subst_op(a) for a in t_['args']], dest=subst_place(t_['dest']))
+        elif t_['k'] == 'switch':
+            t_ = dict(t_, op=subst_op(t_['op']))
+        elif t_['k'] == 'drop':
+            t_ = dict(t_, p=subst_place(t_['p']))
+        return t_
     entry = bld.block(pre, {'k': 'goto', 't': boff, 'line': line, 'exp': False})
     assert entry == boff - 1
     for blk in closure_raw['blocks']:
-        nb = {'stmts': [_stmt(s, off) for s in blk['stmts']], 'cleanup': blk['cleanup']}
+        nb = {'stmts': [subst_stmt(_stmt(s, off)) for s in blk['stmts']], 'cleanup': blk['cleanup']}
         bt = blk['term']
         if bt['k'] == 'ret':
             nb['stmts'].append(bld.stmt(dest, {'k': 'use', 'op': {'m': [off, []]}}, bt.get('line', line)))
             nb['term'] = dict(bt, k='goto', t=ret)
         else:
-            nb['term'] = _term(bt, off, boff)
+            nb['term'] = subst_term(_term(bt, off, boff))
         raw['blocks'].append(nb)
     return entry
 
@@ -190,6 +244,16 @@ def desugared(unit, body, adaptors=False, _cache={}):
                 unreach = bld.block([], {'k': 'unreach'})
                 blk['term'] = {'k': 'switch', 'op': {'m': [d, []]}, 'vals': [0, 1], 'tgts': [tg[0], tg[1], unreach], 'line': line, 'exp': t.get('exp', False)}
                 consumed.append(cp)
+                changed = True
+                continue
+            if re.search(r'(^|::)(<impl bool>|bool)::then_some$', path) and len(t['args']) == 2:
+                # `b.then_some(v)` is `if b { Some(v) } else { None }`
+                dest, R = t['dest'], t['ret']
+                yes = bld.block([bld.stmt(dest, _agg(OPTION, 'Some', [t['args'][1]]), line)], {'k': 'goto', 't': R, 'line': line, 'exp': False})
+                no = bld.block([bld.stmt(dest, _agg(OPTION, 'None', []), line)], {'k': 'goto', 't': R, 'line': line, 'exp': False})
+                blk = raw['blocks'][bi]
+                blk['term'] = {'k': 'switch', 'op': t['args'][0], 'vals': [0], 'tgts': [no, yes], 'line': line, 'exp': t.get('exp', False)}
+                consumed.append('bool::then_some')
                 changed = True
                 continue
             if adaptors and ADAPTORS.search(path) and t['args']:
